@@ -75,7 +75,8 @@ def snapshot(x, _depth=0, _seen=None):
     if isinstance(x, (set, frozenset)):
         return (_cls(x), tuple(sorted((snapshot(v, d, _seen) for v in x), key=repr)))
     if isinstance(x, (dict, types.MappingProxyType)):
-        return (_cls(x), tuple((snapshot(k, d, _seen), snapshot(v, d, _seen)) for k, v in x.items()))
+        # dict equality ignores insertion order, so does the snapshot
+        return (_cls(x), tuple(sorted(((snapshot(k, d, _seen), snapshot(v, d, _seen)) for k, v in x.items()), key=repr)))
     if dataclasses.is_dataclass(x) and not isinstance(x, type):
         return (_cls(x), tuple((f.name, snapshot(getattr(x, f.name, "<unset>"), d, _seen))
                                for f in dataclasses.fields(x)))
